@@ -23,6 +23,9 @@ STs == {<<>>, <<62, 62>>}              \* LINES STARTING BY '' | '>>'
 
 Options == {o \in [ft : FTs, lt : LTs, enc : Encs, opt : BOOLEAN, esc : {<<e>> : e \in Escs}, st : STs] : GoodOptions(o)}
 
+\* the option sets are printed once per run: the random generator of binding B draws from exactly this set
+ASSUME PrintT("OPTS " \o ToJson(Options))
+
 \* every delimiter, both quotes, both escape characters, newline, CR, NUL, a plain letter, 'N'
 Alphabet == {Comma, Semi, Tab, DQ, SQ, BS, NL, CR, 0, LetA, cN, Bang}
 
